@@ -11,6 +11,7 @@ mod parse_callbacks;
 mod fmtdrive;
 mod constructs;
 mod depsdrive;
+mod history;
 mod inventory;
 mod postprocess;
 mod regexdrive;
@@ -28,6 +29,7 @@ fn main() {
         "run" => run::main(&args[2..]),
         "statics" => statics::main(&args[2..]),
         "inventory" => inventory::main(&args[2..]),
+        "history" => history::main(&args[2..]),
         "deps" => depsdrive::main(&args[2..]),
         "postprocess" => postprocess::main(&args[2..]),
         "constructs" => constructs::main(&args[2..]),
